@@ -185,7 +185,7 @@ theorem Reach.done {t : TTL} (h : Reach t) (tok : Nat) (e : Bool) : Reach (t.don
   h.step (.done tok e)
 
 /-- Under C10's invariant the callback counter is 0 or 1. -/
-theorem TInv.calls_le_one {t : TTL} (inv : TInv t) {id : Nat} {r : RC} (h : t.core.rcs[id]? = some r) :
+theorem _root_.SV.Refcount.TInv.calls_le_one {t : TTL} (inv : TInv t) {id : Nat} {r : RC} (h : t.core.rcs[id]? = some r) :
     r.calls ≤ 1 := (inv.core.ok id r h).calls_le_one
 
 /-! ## C. refCounter `i` of a cache stands for object `i` -/
@@ -421,13 +421,21 @@ theorem XInv.closeLayer {L : List Layer} {T : List Tok} {p : Option Nat} {lid : 
 /-! ## E. what the callbacks and cache operations of the state leave untouched -/
 
 @[simp] theorem closeBlob_bc (s : State) (bid : Nat) : (closeBlob s bid).bc = s.bc := by
-  unfold closeBlob; split <;> [rfl; (split <;> rfl)]
+  unfold closeBlob; split
+  · rfl
+  · split <;> rfl
 @[simp] theorem closeBlob_lc (s : State) (bid : Nat) : (closeBlob s bid).lc = s.lc := by
-  unfold closeBlob; split <;> [rfl; (split <;> rfl)]
+  unfold closeBlob; split
+  · rfl
+  · split <;> rfl
 @[simp] theorem closeBlob_layers (s : State) (bid : Nat) : (closeBlob s bid).layers = s.layers := by
-  unfold closeBlob; split <;> [rfl; (split <;> rfl)]
+  unfold closeBlob; split
+  · rfl
+  · split <;> rfl
 @[simp] theorem closeBlob_fsDirs (s : State) (bid : Nat) : (closeBlob s bid).fsDirs = s.fsDirs := by
-  unfold closeBlob; split <;> [rfl; (split <;> rfl)]
+  unfold closeBlob; split
+  · rfl
+  · split <;> rfl
 
 @[simp] theorem bcFire_bc (s : State) (c0 : Core) (id : Nat) : (bcFire s c0 id).bc = s.bc := by
   unfold bcFire; split <;> simp
@@ -521,7 +529,8 @@ theorem fired_cases {t t' : TTL} {id : Nat} (fr : Frame t.core t'.core id) (inv'
     · left; exact ⟨hlt, r, r', hr, rfl, by omega, by omega⟩
     · right
       refine ⟨hlt, ?_⟩
-      intro a b ha hb; cases ha; cases hb; omega
+      intro a b ha hb
+      rw [hr] at ha; cases ha; cases hb; omega
 
 theorem countP_set_close {α : Type} (closed : α → Bool) (objs : List α) (i : Nat) (o o' : α)
     (h : objs[i]? = some o) (hc : closed o = false) (hc' : closed o' = true) :
@@ -533,6 +542,12 @@ theorem countP_set_close {α : Type} (closed : α → Bool) (objs : List α) (i 
     List.countP_pos_iff.mpr ⟨o, List.mem_of_getElem? h, by simp [hc]⟩
   simp [hget, hc, hc']
   omega
+
+theorem closeBlob_open {s : State} {bid : Nat} {b : Blob} (h : s.blobs[bid]? = some b)
+    (hc : b.closed = false) :
+    closeBlob s bid = { s with blobs := s.blobs.set bid { b with closed := true, cacheClosed := true },
+                               httpDirs := s.httpDirs - 1 } := by
+  simp [closeBlob, h, hc]
 
 /-- A blob-cache operation followed by the callback it may have triggered keeps the blob side. -/
 theorem BInv.fire {s : State} (inv : BInv s) {t' : TTL} {id : Nat} (hr : Reach t')
@@ -546,15 +561,15 @@ theorem BInv.fire {s : State} (inv : BInv s) {t' : TTL} {id : Nat} (hr : Reach t
     rw [h0] at hr0; cases hr0
     have hval : t'.core.valOf id = id := by rw [valOf_of h1, hv0, hv]
     simp only [hval]
-    unfold closeBlob
-    simp only [hb, hbc]
+    rw [closeBlob_open (s := { s with bc := t' }) hb hbc]
     have hlt := (List.getElem_of_getElem? hb).1
     refine ⟨hr, ?_, ?_, ?_⟩
     · refine inv.link.step fr (by simp) (fun j hj => by simp [List.getElem?_set_ne (Ne.symm hj)]) ?_
       intro o a a' ho ha ha'
       rw [hb] at ho; cases ho
       rw [h1] at ha'; cases ha'
-      exact ⟨_, by simp [List.getElem?_set_self hlt], rfl, by simp [c1]⟩
+      exact ⟨{ b with closed := true, cacheClosed := true }, by simp [List.getElem?_set_self hlt], rfl,
+        by simp [c1]⟩
     · intro i b' hb'
       simp only at hb'
       by_cases e : id = i
@@ -582,5 +597,324 @@ theorem BInv.bcEvict {s : State} (inv : BInv s) (k : Nat) : BInv (bcEvict s k) :
 theorem bcDone_toks {s : State} {tok : Nat} {t : Tok} (e : Bool) (ht : s.bc.core.toks[tok]? = some t) :
     (bcDone s tok e).bc.core.toks = s.bc.core.toks.set tok { t with once := true } := by
   rw [bcDone_bc]; exact TTL.done_toks e ht
+
+/-! ## G. layer side -/
+
+/-- What `layer.close` turns an open layer into. -/
+def Layer.shut (l : Layer) : Layer :=
+  { l with closed := true, readerClosed := true, cachesClosed := true, metadataClosed := true,
+           blobDone := l.blobDone + 1 }
+
+theorem closeLayer_open {s : State} {lid : Nat} {l : Layer} (h : s.layers[lid]? = some l)
+    (hc : l.closed = false) :
+    closeLayer s lid =
+      bcDone { s with layers := s.layers.set lid l.shut, fsDirs := s.fsDirs - 1 } l.blobTok true := by
+  simp [closeLayer, h, hc, Layer.shut]
+
+theorem closeLayer_closed {s : State} {lid : Nat} {l : Layer} (h : s.layers[lid]? = some l)
+    (hc : l.closed = true) : closeLayer s lid = s := by
+  simp [closeLayer, h, hc]
+
+@[simp] theorem closeLayer_lc (s : State) (lid : Nat) : (closeLayer s lid).lc = s.lc := by
+  unfold closeLayer; split
+  · rfl
+  · split
+    · rfl
+    · simp
+
+@[simp] theorem lcFire_lc (s : State) (c0 : Core) (id : Nat) : (lcFire s c0 id).lc = s.lc := by
+  unfold lcFire; split <;> simp
+
+@[simp] theorem lcDone_lc (s : State) (tok : Nat) (e : Bool) : (lcDone s tok e).lc = (s.lc.done tok e).1 := by
+  unfold lcDone; split
+  · rename_i h; simp [TTL.done, h]
+  · simp
+
+@[simp] theorem lcEvict_lc (s : State) (k : Nat) : (lcEvict s k).lc = s.lc.evictLocked k := by
+  unfold lcEvict; split
+  · rename_i h; simp [TTL.evictLocked, h]
+  · simp
+
+/-- A layer-cache operation followed by the callback it may have triggered (which in turn calls the
+blob closure, which may trigger the blob cache's callback) keeps the whole invariant. -/
+theorem Inv.lcFire {s : State} {p : Option Nat} (inv : Inv s p) {t' : TTL} {id : Nat} (hr : Reach t')
+    (fr : Frame s.lc.core t'.core id) : Inv (lcFire { s with lc := t' } s.lc.core id) p := by
+  unfold SV.LayerLife.lcFire
+  rcases fired_cases fr hr.inv with ⟨hf, r, r', h0, h1, c0, c1⟩ | ⟨hf, hsame⟩
+  · simp only [hf, if_true]
+    obtain ⟨l, hl, hv, hn, hc⟩ := inv.l.link.ok id r h0
+    have hlc : l.closed = false := by rw [hc, c0]; rfl
+    obtain ⟨r0, hr0, _, hv0, _⟩ := fr.same r' h1
+    rw [h0] at hr0; cases hr0
+    have hval : t'.core.valOf id = id := by rw [valOf_of h1, hv0, hv]
+    simp only [hval]
+    rw [closeLayer_open (s := { s with lc := t' }) hl hlc]
+    have hlt := (List.getElem_of_getElem? hl).1
+    obtain ⟨tk, htk, _⟩ := inv.x.btok id l hl
+    refine ⟨?_, ?_, ?_⟩
+    · apply BInv.bcDone
+      exact inv.b.congr rfl rfl rfl
+    · refine LInv.congr (s := { s with lc := t', layers := s.layers.set id l.shut, fsDirs := s.fsDirs - 1 })
+        ?_ (by simp) (by simp) (by simp)
+      refine ⟨hr, ?_, ?_, ?_⟩
+      · refine inv.l.link.step fr (by simp) (fun j hj => by simp [List.getElem?_set_ne (Ne.symm hj)]) ?_
+        intro o a a' ho ha ha'
+        rw [hl] at ho; cases ho
+        rw [h1] at ha'; cases ha'
+        exact ⟨l.shut, by simp [List.getElem?_set_self hlt], rfl, by simp [c1, Layer.shut]⟩
+      · intro i l' hl'
+        simp only at hl'
+        by_cases e : id = i
+        · subst e
+          rw [List.getElem?_set_self hlt] at hl'; cases hl'
+          have := (inv.l.flags id l hl).2.2.2
+          simp [Layer.shut, this, hlc]
+        · rw [List.getElem?_set_ne e] at hl'; exact inv.l.flags i l' hl'
+      · simp only
+        rw [countP_set_close Layer.closed s.layers id l _ hl hlc rfl, inv.l.dirs]
+    · rw [bcDone_layers, bcDone_toks true (by exact htk)]
+      exact inv.x.closeLayer hl htk rfl rfl
+  · simp only [hf, if_false]
+    exact ⟨inv.b.congr rfl rfl rfl, ⟨hr, inv.l.link.step_same fr hsame, inv.l.flags, inv.l.dirs⟩, inv.x⟩
+
+theorem Inv.lcDone {s : State} {p : Option Nat} (inv : Inv s p) (tok : Nat) (e : Bool) :
+    Inv (lcDone s tok e) p := by
+  unfold SV.LayerLife.lcDone
+  split
+  · exact inv
+  · rename_i t ht
+    exact inv.lcFire (inv.l.reach.done tok e) (TTL.done_frame e ht)
+
+theorem Inv.lcEvict {s : State} {p : Option Nat} (inv : Inv s p) (k : Nat) : Inv (lcEvict s k) p := by
+  unfold SV.LayerLife.lcEvict
+  split
+  · exact inv
+  · rename_i id hm
+    exact inv.lcFire (inv.l.reach.evict k) (TTL.evict_frame hm)
+
+theorem Inv.bcEvict {s : State} {p : Option Nat} (inv : Inv s p) (k : Nat) : Inv (bcEvict s k) p :=
+  ⟨inv.b.bcEvict k, inv.l.congr (by simp) (by simp) (by simp), by simpa using inv.x⟩
+
+/-- `blobR.done(true)` on the closure a running `Resolve` still holds. -/
+theorem Inv.bcDonePending {s : State} {tok : Nat} (inv : Inv s (some tok)) :
+    Inv (bcDone s tok true) none := by
+  obtain ⟨⟨t, ht, _⟩, _⟩ := inv.x.pend tok rfl
+  refine ⟨inv.b.bcDone _ _, inv.l.congr (by simp) (by simp) (by simp), ?_⟩
+  rw [bcDone_layers, bcDone_toks true ht]
+  exact inv.x.releasePending ht
+
+/-! ## H. nothing is gained by the clean-up operations -/
+
+/-- `s'` has no cache entry, layer object or directory that `s` does not have. -/
+structure Sub (s s' : State) : Prop where
+  lcm : ∀ k id, s'.lc.m k = some id → s.lc.m k = some id
+  bcm : ∀ k id, s'.bc.m k = some id → s.bc.m k = some id
+  nlay : s'.layers.length = s.layers.length
+  fs : s'.fsDirs ≤ s.fsDirs
+  http : s'.httpDirs ≤ s.httpDirs
+
+theorem Sub.refl (s : State) : Sub s s :=
+  ⟨fun _ _ h => h, fun _ _ h => h, rfl, Int.le_refl _, Int.le_refl _⟩
+
+theorem Sub.trans {a b c : State} (h1 : Sub a b) (h2 : Sub b c) : Sub a c :=
+  ⟨fun k id h => h1.lcm k id (h2.lcm k id h), fun k id h => h1.bcm k id (h2.bcm k id h),
+   h2.nlay.trans h1.nlay, Int.le_trans h2.fs h1.fs, Int.le_trans h2.http h1.http⟩
+
+theorem closeBlob_http_le (s : State) (bid : Nat) : (closeBlob s bid).httpDirs ≤ s.httpDirs := by
+  unfold closeBlob; split
+  · exact Int.le_refl _
+  · split
+    · exact Int.le_refl _
+    · simp only; omega
+
+theorem bcFire_http_le (s : State) (c0 : Core) (id : Nat) : (bcFire s c0 id).httpDirs ≤ s.httpDirs := by
+  unfold bcFire; split
+  · exact closeBlob_http_le _ _
+  · exact Int.le_refl _
+
+theorem bcDone_http_le (s : State) (tok : Nat) (e : Bool) : (bcDone s tok e).httpDirs ≤ s.httpDirs := by
+  unfold bcDone; split
+  · exact Int.le_refl _
+  · exact bcFire_http_le _ _ _
+
+theorem bcEvict_http_le (s : State) (k : Nat) : (bcEvict s k).httpDirs ≤ s.httpDirs := by
+  unfold bcEvict; split
+  · exact Int.le_refl _
+  · exact bcFire_http_le _ _ _
+
+theorem sub_bcDone (s : State) (tok : Nat) (e : Bool) : Sub s (bcDone s tok e) :=
+  ⟨by simp, by intro k id h; rw [bcDone_bc] at h; exact TTL.done_m_sub e h, by simp, by simp,
+   bcDone_http_le s tok e⟩
+
+theorem sub_bcEvict (s : State) (k : Nat) : Sub s (bcEvict s k) :=
+  ⟨by simp, by intro k' id h; rw [bcEvict_bc] at h; exact TTL.evict_m_sub h, by simp, by simp,
+   bcEvict_http_le s k⟩
+
+theorem sub_closeLayer (s : State) (lid : Nat) : Sub s (closeLayer s lid) := by
+  unfold closeLayer
+  split
+  · exact Sub.refl s
+  · split
+    · exact Sub.refl s
+    · rename_i l _ _
+      refine Sub.trans (b := { s with layers := s.layers.set lid _, fsDirs := s.fsDirs - 1 }) ?_ (sub_bcDone _ _ _)
+      exact ⟨fun _ _ h => h, fun _ _ h => h, by simp, by simp only; omega, Int.le_refl _⟩
+
+theorem sub_lcFire (s : State) (c0 : Core) (id : Nat) : Sub s (lcFire s c0 id) := by
+  unfold lcFire; split
+  · exact sub_closeLayer _ _
+  · exact Sub.refl s
+
+theorem sub_lcDone (s : State) (tok : Nat) (e : Bool) : Sub s (lcDone s tok e) := by
+  unfold lcDone; split
+  · exact Sub.refl s
+  · refine Sub.trans (b := { s with lc := (s.lc.done tok e).1 }) ?_ (sub_lcFire _ _ _)
+    exact ⟨fun k id h => TTL.done_m_sub e h, fun _ _ h => h, rfl, Int.le_refl _, Int.le_refl _⟩
+
+theorem sub_lcEvict (s : State) (k : Nat) : Sub s (lcEvict s k) := by
+  unfold lcEvict; split
+  · exact Sub.refl s
+  · refine Sub.trans (b := { s with lc := s.lc.evictLocked k }) ?_ (sub_lcFire _ _ _)
+    exact ⟨fun k' id h => TTL.evict_m_sub h, fun _ _ h => h, rfl, Int.le_refl _, Int.le_refl _⟩
+
+/-! ### what the layer-side operations do to the closures of the layer cache -/
+
+@[simp] theorem closeLayer_lc' (s : State) (lid : Nat) : (closeLayer s lid).lc.core.toks = s.lc.core.toks := by
+  rw [closeLayer_lc]
+
+theorem lcDone_toks {s : State} {tok : Nat} {t : Tok} (e : Bool) (ht : s.lc.core.toks[tok]? = some t) :
+    (lcDone s tok e).lc.core.toks = s.lc.core.toks.set tok { t with once := true } := by
+  rw [lcDone_lc]; exact TTL.done_toks e ht
+
+/-! ### cached objects are open -/
+
+theorem cached_open {α : Type} {t : TTL} {objs : List α} {name closed} (hr : Reach t)
+    (lk : Link t objs name closed) {k id : Nat} (hm : t.m k = some id) :
+    ∃ o r, objs[id]? = some o ∧ t.core.rcs[id]? = some r ∧ r.val = id ∧ r.key = k ∧ name o = k ∧
+      closed o = false := by
+  obtain ⟨r, hr', hk, hf⟩ := hr.inv.mOk k id hm
+  obtain ⟨o, ho, hv, hn, hc⟩ := lk.ok id r hr'
+  have h3 := (hr.inv.core.ok id r hr').2.2
+  have : r.calls = 0 := by simpa [hf] using h3
+  exact ⟨o, r, ho, hr', hv, hk, hn.trans hk, by rw [hc, this]; rfl⟩
+
+/-- A closure not yet called keeps its value un-finalised (C10 `ttl_held_not_finalised`). -/
+theorem held_open {α : Type} {t : TTL} {objs : List α} {name closed} (hr : Reach t)
+    (lk : Link t objs name closed) {tok : Nat} {tk : Tok} (ht : t.core.toks[tok]? = some tk)
+    (hn : tk.once = false) :
+    ∃ o r, objs[tk.rc]? = some o ∧ t.core.rcs[tk.rc]? = some r ∧ r.val = tk.rc ∧ closed o = false := by
+  have inv := hr.inv
+  have hlt := inv.core.tokLt tk (List.mem_of_getElem? ht)
+  have hr' := List.getElem?_eq_getElem hlt
+  have ok := inv.core.ok tk.rc _ hr'
+  have hp := held_pos_of_tok ht hn
+  have h3 := ok.2.2
+  have hz : ¬ ((t.core.rcs[tk.rc]).finDone = true ∧ held t.core.toks tk.rc = 0) := by
+    intro h; omega
+  have hc : (t.core.rcs[tk.rc]).calls = 0 := by simpa [hz] using h3
+  obtain ⟨o, ho, hv, _, hcl⟩ := lk.ok tk.rc _ hr'
+  exact ⟨o, _, ho, hr', hv, by rw [hcl, hc]; rfl⟩
+
+/-- An open layer's blob is open. -/
+theorem open_layer_blob {s : State} {p : Option Nat} (inv : Inv s p) {i : Nat} {l : Layer}
+    (hl : s.layers[i]? = some l) (hc : l.closed = false) :
+    ∃ tk bid b, s.bc.core.toks[l.blobTok]? = some tk ∧ tk.once = false ∧ blobOfTok s l.blobTok = some bid ∧
+      s.blobs[bid]? = some b ∧ b.closed = false ∧ b.cacheClosed = false := by
+  obtain ⟨tk, htk, ho⟩ := inv.x.btok i l hl
+  rw [hc] at ho
+  obtain ⟨b, r, hb, hr, hv, hbc⟩ := held_open inv.b.reach inv.b.link htk ho
+  refine ⟨tk, tk.rc, b, htk, ho, ?_, hb, hbc, ?_⟩
+  · simp [blobOfTok, htk, valOf_of hr, hv]
+  · rw [inv.b.flags _ b hb, hbc]
+
+theorem layerCheck_open {s : State} {p : Option Nat} (inv : Inv s p) {i : Nat} {l : Layer}
+    (hl : s.layers[i]? = some l) (hc : l.closed = false) (probe : Bool) : layerCheck s i probe = probe := by
+  obtain ⟨tk, bid, b, _, _, hbt, hb, hbc, _⟩ := open_layer_blob inv hl hc
+  simp [layerCheck, hl, hc, blobRefCheck, hbt, blobCheck, blobClosed, hb, hbc]
+
+theorem layerCheck_cached {s : State} {p : Option Nat} (inv : Inv s p) {k a : Nat}
+    (hm : s.lc.m k = some a) (probe : Bool) : layerCheck s a probe = probe := by
+  obtain ⟨l, _, hl, _, _, _, _, hc⟩ := cached_open inv.l.reach inv.l.link hm
+  exact layerCheck_open inv hl hc probe
+
+theorem blobCheck_cached {s : State} (inv : BInv s) {k id : Nat} (hm : s.bc.m k = some id)
+    (probe : Bool) : blobCheck s id probe = probe := by
+  obtain ⟨b, _, hb, _, _, _, _, hc⟩ := cached_open inv.reach inv.link hm
+  simp [blobCheck, blobClosed, hb, hc]
+
+/-! ## I. Resolve -/
+
+theorem rbf_fail {s : State} {name : Nat} {o : Oracle} (h : o.bres = false) :
+    resolveBlobFresh s name o = ({ s with httpDirs := s.httpDirs + 1 - 1 }, none) := by
+  simp [resolveBlobFresh, h]
+
+theorem rbf_ok {s : State} {name : Nat} {o : Oracle} (h : o.bres = true) (hm : s.bc.m name = none) :
+    resolveBlobFresh s name o =
+      ({ s with httpDirs := s.httpDirs + 1, blobs := s.blobs ++ [({ name := name } : Blob)],
+                bc := (s.bc.add name s.blobs.length).1 }, some s.bc.core.toks.length) := by
+  simp [resolveBlobFresh, h, TTL.add_new _ hm]
+
+theorem Inv.fixHttp {s : State} {p : Option Nat} (inv : Inv s p) :
+    Inv { s with httpDirs := s.httpDirs + 1 - 1 } p :=
+  ⟨inv.b.congr rfl rfl (by simp only; omega), inv.l.congr rfl rfl rfl, inv.x⟩
+
+theorem Inv.fixFs {s : State} {p : Option Nat} (inv : Inv s p) :
+    Inv { s with fsDirs := s.fsDirs + 1 - 1 } p :=
+  ⟨inv.b.congr rfl rfl rfl, inv.l.congr rfl rfl (by simp only; omega), inv.x⟩
+
+/-- `makeBlob` + `blobCache.Add` of a name that is not cached. -/
+theorem Inv.addBlob {s : State} (inv : Inv s none) {name : Nat} (hm : s.bc.m name = none) :
+    Inv { s with httpDirs := s.httpDirs + 1, blobs := s.blobs ++ [({ name := name } : Blob)],
+                 bc := (s.bc.add name s.blobs.length).1 } (some s.bc.core.toks.length) := by
+  refine ⟨⟨inv.b.reach.add _ _, inv.b.link.addNew hm _ rfl rfl, ?_, ?_⟩, inv.l.congr rfl rfl rfl, ?_⟩
+  · intro i b hb
+    simp only at hb
+    rw [List.getElem?_append] at hb
+    split at hb
+    · exact inv.b.flags i b hb
+    · have hi : i = s.blobs.length := by
+        cases hj' : i - s.blobs.length with
+        | zero => omega
+        | succ n => simp [hj'] at hb
+      subst hi; simp at hb; subst hb; rfl
+  · simp only [List.countP_append, List.countP_singleton, inv.b.dirs]
+    simp
+  · simp only [TTL.add_new _ hm, newTok_toks, newRc_toks]
+    exact inv.x.newTok _
+
+/-- `blobCache.Get` hit: a new closure of the cached blob. -/
+theorem Inv.getBlob {s : State} (inv : Inv s none) {name id : Nat} (hm : s.bc.m name = some id) :
+    Inv { s with bc := { s.bc with core := s.bc.core.newTok id } } (some s.bc.core.toks.length) := by
+  have hr : Reach { s.bc with core := s.bc.core.newTok id } := by
+    have := inv.b.reach.get name
+    rwa [TTL.get_hit hm] at this
+  exact ⟨⟨hr, inv.b.link.newTok id, inv.b.flags, inv.b.dirs⟩, inv.l.congr rfl rfl rfl, inv.x.newTok id⟩
+
+/-- `layerCache.Get` hit. -/
+theorem Inv.getLayer {s : State} {p : Option Nat} (inv : Inv s p) {name id : Nat} (hm : s.lc.m name = some id) :
+    Inv { s with lc := { s.lc with core := s.lc.core.newTok id } } p := by
+  have hr : Reach { s.lc with core := s.lc.core.newTok id } := by
+    have := inv.l.reach.get name
+    rwa [TTL.get_hit hm] at this
+  exact ⟨inv.b.congr rfl rfl rfl, ⟨hr, inv.l.link.newTok id, inv.l.flags, inv.l.dirs⟩, inv.x⟩
+
+/-- `newLayer` + `layerCache.Add` of a name that is not cached. -/
+theorem Inv.addLayer {s : State} {btok : Nat} (inv : Inv s (some btok)) {name : Nat} (hm : s.lc.m name = none) :
+    Inv { s with fsDirs := s.fsDirs + 1, layers := s.layers ++ [({ name := name, blobTok := btok } : Layer)],
+                 lc := (s.lc.add name s.layers.length).1 } none := by
+  refine ⟨inv.b.congr rfl rfl rfl, ⟨inv.l.reach.add _ _, inv.l.link.addNew hm _ rfl rfl, ?_, ?_⟩, ?_⟩
+  · intro i l hl
+    simp only at hl
+    rw [List.getElem?_append] at hl
+    split at hl
+    · exact inv.l.flags i l hl
+    · have hi : i = s.layers.length := by
+        cases hj' : i - s.layers.length with
+        | zero => omega
+        | succ n => simp [hj'] at hl
+      subst hi; simp at hl; subst hl; simp
+  · simp only [List.countP_append, List.countP_singleton, inv.l.dirs]
+    simp
+  · exact inv.x.attach _ rfl rfl
 
 end SV.LayerLife
